@@ -13,9 +13,6 @@ theorem lit_videos_word : lit "videos" = videosL := by decide
 theorem lit_photos_word : lit "photos" = photosL := by decide
 theorem lit_posts_word : lit "posts" = postsL := by decide
 
-/-- `s` does not start with `watch`: the url is not taken by the `"/watch" in path` route -/
-def noWatch (s : Str) : Bool := !startsWith s (lit "watch")
-
 theorem noWatch_spec {s : Str} (h : noWatch s = true) : watchL.isPrefixOf s = false := by
   unfold noWatch at h
   rw [lit_watch_word] at h
@@ -35,9 +32,6 @@ theorem wfacts :
     watchL.isPrefixOf photosL = false ∧ watchL.isPrefixOf permalinkL = false := by decide
 
 /-! ## `FacebookHandle` -/
-
-def handleOk (h : Str) : Bool :=
-  segOk h && noWatch h && !startsWith h (lit "people") && !endsWith h (lit ".php")
 
 theorem reparse_handle (h : Str) (hh : handleOk h = true) : Reparses (.handle h) := by
   unfold handleOk at hh
@@ -63,8 +57,6 @@ theorem reparse_handle (h : Str) (hh : handleOk h = true) : Reparses (.handle h)
     simp [getIdx, hphp, bind, Except.bind, pure, Except.pure]
 
 /-! ## `FacebookVideo` with a parent: `/<parent>/videos/<id>` -/
-
-def videoParentOk (pid id : Str) : Bool := segOk pid && segOk id && noWatch pid && noWatch id
 
 theorem segOk_literals :
     segOk videosL = true ∧ segOk photosL = true ∧ segOk postsL = true ∧ segOk groupsL = true ∧
@@ -97,10 +89,6 @@ theorem reparse_video_parent (pid id : Str) (hh : videoParentOk pid id = true) :
 
 /-! ## `FacebookPost` of a page: `/<handle>/posts/<id>` -/
 
-def postHandleOk (ph id : Str) : Bool :=
-  segOk ph && segOk id && noWatch ph && noWatch id && !is_facebook_id ph &&
-  decide (ph ≠ lit "videos") && decide (ph ≠ lit "photos") && decide (ph ≠ lit "groups")
-
 theorem reparse_post_parent_handle (ph id : Str) (hh : postHandleOk ph id = true) :
     Reparses (.post id none (some ph) none none) := by
   unfold postHandleOk at hh
@@ -130,9 +118,6 @@ theorem reparse_post_parent_handle (ph id : Str) (hh : postHandleOk ph id = true
     simp [getIdx, bind, Except.bind, pure, Except.pure, hg, hid]
 
 /-! ## `FacebookPost` of a group: `/groups/<group>/permalink/<id>` -/
-
-def postGroupOk (g id : Str) : Bool :=
-  segOk g && segOk id && noWatch g && noWatch id && decide (g ≠ lit "videos") && decide (g ≠ lit "photos")
 
 theorem is_facebook_id_posts : is_facebook_id postsL = false := by decide
 
@@ -184,8 +169,6 @@ theorem reparse_post_group (g id : Str) (hh : postGroupOk g id = true) :
 
 /-! ## `FacebookGroup`: `/groups/<group>` -/
 
-def groupOk (g : Str) : Bool := segOk g && noWatch g
-
 theorem joinBase_groups (g : Str) (hg : segOk g = true) :
     joinBase (lit "groups/" ++ g) = .ok (some (BASE ++ slashed [groupsL, g])) := by
   have hs := segOk_spec hg
@@ -231,10 +214,6 @@ theorem reparse_group (g : Str) (hh : groupOk g = true) :
       simp [getIdx, bind, Except.bind, pure, Except.pure, hid, e4]
 
 /-! ## `FacebookPhoto` of a page: `/<page>/photos/a.<album>/<id>` -/
-
-def photoPathOk (p aid id : Str) : Bool :=
-  segOk p && segOk id && aid.all segChar && noWatch p && noWatch id && decide (p ≠ lit "videos") &&
-  !contains aid (lit "a.")
 
 theorem segOk_album (aid : Str) (h : aid.all segChar = true) : segOk (aDot ++ aid) = true := by
   unfold segOk
@@ -361,13 +340,6 @@ theorem reparse_post_parent_id (pid id : Str) (hp : qvalOk pid = true) (hi : qva
     simp [qsGet, qsHas, qsValues, getIdx, bind, Except.bind, pure, Except.pure, storyK, idK]
 
 /-! ## `FacebookPhoto` by its id: `/photo.php?fbid=<id>[&set=g.<group>][&set=a.<album>]` -/
-
-def optQvalOk (o : Option Str) : Bool :=
-  match o with
-  | none => true
-  | some s => qvalOk s
-
-def photoQueryOk (id : Str) (gid aid : Option Str) : Bool := qvalOk id && optQvalOk gid && optQvalOk aid
 
 def photoItems (id : Str) (gid aid : Option Str) : List (Str × Str) :=
   (fbidK, id) :: ((gid.map fun g => (setK, gDot ++ g)).toList ++ (aid.map fun a => (setK, aDot ++ a)).toList)
